@@ -174,6 +174,15 @@ type engine struct {
 	npeers int
 	peers  []peer.ID
 	limit  uint64
+	// size of the emulated task-worker pool (taskqueue.Startup(n, ...)): `pop` is refused while n
+	// executors are alive; 0 = unbounded
+	nWorkers int
+	// free-running mode (component `pool`): the REAL worker pool (taskqueue.Startup) pops and executes,
+	// nothing parks in the harness; peers listed in stalledPeers never complete a send, all others
+	// complete at once
+	free         bool
+	stalledPeers map[int]bool
+	evCh         chan struct{}
 
 	alloc *allocWrap
 	net   *fakeNet
@@ -275,6 +284,13 @@ func (n *fakeNet) NewMessageSender(_ context.Context, p peer.ID, _ gsnet.Message
 	return &fakeSender{n, peerIdx(p)}, nil
 }
 func (s *fakeSender) SendMsg(ctx context.Context, m gsmsg.GraphSyncMessage) error {
+	if s.n.e.free {
+		if s.n.e.stalledPeers[s.p] {
+			<-s.n.e.ctx.Done()
+			return errors.New("shutdown")
+		}
+		return nil
+	}
 	s.n.e.notes <- note{kind: "sendmsg", p: s.p, w: &wire{s.p, m}}
 	select {
 	case err := <-s.n.outcome[s.p]:
@@ -293,6 +309,9 @@ type allocWrap struct {
 }
 
 func (a *allocWrap) AllocateBlockMemory(p peer.ID, amount uint64) <-chan error {
+	if a.e.free {
+		return a.inner.AllocateBlockMemory(p, amount)
+	}
 	ch := a.inner.AllocateBlockMemory(p, amount)
 	select {
 	case err := <-ch:
@@ -348,7 +367,7 @@ func (m mgrWrap) FinishTask(task *peertask.Task, p peer.ID, err error) {
 		}
 	}
 	e.mu.Unlock()
-	if park {
+	if park && !e.free {
 		e.notes <- note{kind: "prefinish", wk: w}
 		select {
 		case <-w.release:
@@ -379,12 +398,20 @@ func (s *subWrap) OnClose(t notifications.Topic) {
 
 // ---------------------------------------------------------------- construction
 
-func newEngine(npeers int, limit uint64, maxPerPeer int) *engine {
+func newEngine(npeers int, limit uint64, maxPerPeer int, nWorkers int) *engine {
+	return newEngineOpts(npeers, limit, maxPerPeer, nWorkers, false, nil)
+}
+
+func newEngineOpts(npeers int, limit uint64, maxPerPeer int, nWorkers int, free bool, stalled map[int]bool) *engine {
 	ctx, cancel := context.WithCancel(context.Background())
-	e := &engine{ctx: ctx, cancel: cancel, npeers: npeers, limit: limit,
+	e := &engine{ctx: ctx, cancel: cancel, npeers: npeers, limit: limit, nWorkers: nWorkers,
 		idOf: map[graphsync.RequestID]int{}, byRoot: map[cid.Cid]*reqCfg{}, byCid: map[cid.Cid][2]int{},
 		next: map[int]*messagequeue.Builder{}, inflt: map[int]*messagequeue.Builder{}, infltW: map[int]*wire{},
 		primed: map[int]bool{}, received: map[int]int{}, notes: make(chan note, 4096)}
+	e.free, e.stalledPeers = free, stalled
+	if free {
+		e.evCh = make(chan struct{}, 1)
+	}
 	for i := 0; i < npeers; i++ {
 		e.peers = append(e.peers, pidOf(i))
 	}
@@ -482,6 +509,12 @@ func (e *engine) addEvent(ev event) {
 	e.mu.Lock()
 	e.events = append(e.events, ev)
 	e.mu.Unlock()
+	if e.evCh != nil {
+		select {
+		case e.evCh <- struct{}{}:
+		default:
+		}
+	}
 }
 
 // ---------------------------------------------------------------- DAG: one private chain per request
@@ -528,6 +561,12 @@ func (e *engine) loader(lc linking.LinkContext, l datamodel.Link) (io.Reader, er
 		w = e.workerFor(c.id)
 	}
 	e.mu.Unlock()
+	if ok && e.free {
+		if c.miss == ki[1] {
+			return nil, errors.New("not found")
+		}
+		return bytes.NewBuffer(c.data[ki[1]]), nil
+	}
 	if !ok || w == nil {
 		return nil, errors.New("unknown block")
 	}
@@ -591,7 +630,7 @@ func (e *engine) blockHook(p peer.ID, r graphsync.RequestData, b graphsync.Block
 	case 'e':
 		a.TerminateWithError(errors.New("block hook error"))
 	case 'k':
-		if w != nil {
+		if w != nil && !e.free {
 			e.notes <- note{kind: "hook", wk: w, k: c.k}
 			select {
 			case <-w.release:
